@@ -31,7 +31,12 @@ func relayCause(down string) string {
 func c12Mailbox(rc *simrt.RunCtx) {
 	pr := newPrng(rc.Seed())
 	installEphemeralGen(pr)
-	rl := newRelay(rc, relayFaults{latMin: time.Millisecond, latMax: time.Duration(2+rc.Pick(20, "relay.latmax")) * time.Millisecond})
+	rf := relayFaults{latMin: time.Millisecond, latMax: time.Duration(2+rc.Pick(20, "relay.latmax")) * time.Millisecond}
+	// the send side of a gRPC stream is asynchronous: Send queues and
+	// returns, cancelling the stream's context resets the stream and drops
+	// what is still queued
+	rf.asyncSend = []time.Duration{0, 0, time.Millisecond, 5 * time.Millisecond}[rc.Pick(4, "relay.k.async-send")]
+	rl := newRelay(rc, rf)
 	maxV := []byte{1, 2}[rc.Pick(2, "knob.maxversion")]
 	st := newStack(rc, rl, pr, 50, maxV)
 	st.eager = rc.Pick(2, "knob.eager") == 1
@@ -45,7 +50,7 @@ func c12Mailbox(rc *simrt.RunCtx) {
 	st.afterDone = func(*instance) bool { return false }
 	who := []string{"client", "server", "both"}[rc.Pick(3, "wl.who")]
 	callers := 1 + rc.Pick(2, "wl.callers")
-	rc.Knob("case", fmt.Sprintf("maxV=%d eager=%v big=%v who=%s callers=%d", maxV, st.eager, big, who, callers))
+	rc.Knob("case", fmt.Sprintf("maxV=%d eager=%v big=%v who=%s callers=%d async-send=%v", maxV, st.eager, big, who, callers, rf.asyncSend))
 	rc.Sample("maxVersion=%d eager=%v big-transfer=%v close by %s with %d concurrent callers", maxV, st.eager, big, who, callers)
 	st.start()
 	// wait for an established pair
@@ -163,7 +168,10 @@ func c12Mailbox(rc *simrt.RunCtx) {
 	}
 	// both applications must see their blocked Read/Write fail: the closing
 	// side at once, the peer through the FIN
-	peerBound := tClose + bound + 10*time.Second
+	// (3 s: the FIN timeout plus relay latency and a margin - less than any
+	// keepalive could take, which needs a pong timeout of 3 s after its ping:
+	// the peer has to learn of the closure from the FIN itself)
+	peerBound := tClose + 3*time.Second
 	for rc.Now() < peerBound {
 		a, b := st.C.snapshot(ci), st.S.snapshot(si)
 		if a.closedAt > 0 && b.closedAt > 0 {
